@@ -67,6 +67,12 @@ func All() map[string]orch.PropertySpec {
 		"C19": {ID: "C19", Level: "model_checking", Assumptions: append([]string{"validity hours are bounded by what time.Duration can represent"}, trusted...),
 			Rule: "cases TLC enumerates from spec/Outbound.tla (meta sub-space): plain / single-logout variant x requested hours x AuthnRequestsSigned x skip-signature x string class x 12 key configurations x clock zone; the marshalled metadata is parsed by expat, compared with configuration, the published signing certificate with the key that verifies a message signed in the same run, the published encryption certificate with the key that decrypts a message encrypted to it in the same run; non-trivial = every case",
 			Parts: []orch.Part{{Family: fam.Outbound{}, Monitors: []string{"C19"}}}},
+		"C14": {ID: "C14", Level: "model_checking", Assumptions: append([]string{"relay-state strings are seeded samples of their class"}, trusted...),
+			Rule: "cases TLC enumerates from spec/Bindings.tla (redirect): AuthnRequest via the Redirect binding, AuthnRequest via BuildAuthURLFromDocument, LogoutRequest x relay-state class (empty, plain, needs escaping, HTML, script, newline, non-ASCII, long, mixed) x IdP URL with / without existing query parameters x SignAuthnRequests x algorithm x 4 key configurations; the URL is analysed from its raw query string (split on & and = without decoding); SAMLRequest is percent-decoded, base64-decoded and raw-inflated and compared with the document; the signature is verified with bare crypto over the octets exactly as they appear; non-trivial = every case",
+			Parts: []orch.Part{{Family: fam.Bindings{}, Monitors: []string{"C14"}}}},
+		"C16": {ID: "C16", Level: "model_checking", Assumptions: append([]string{"relay-state strings are seeded samples of their class", "the page is tokenised by Python's html.parser; newline normalisation performed by browsers when a form is submitted is outside the library and not modelled"}, trusted...),
+			Rule: "cases TLC enumerates from spec/Bindings.tla (post): BuildAuthBodyPost, BuildAuthBodyPostFromDocument, BuildLogoutBodyPostFromDocument, BuildLogoutResponseBodyPostFromDocument x relay-state class x IdP URL shape x signed / unsigned; the page is tokenised by html.parser: one form, action = endpoint, one message field decoding to exactly the document, RelayState iff given and equal, a submitting script, and the tag/attribute-name skeleton equal to the one produced with a benign relay state in the same run; non-trivial = every case",
+			Parts: []orch.Part{{Family: fam.Bindings{}, Monitors: []string{"C16"}}}},
 	}
 }
 
